@@ -68,6 +68,13 @@ def quick_deviations():
     # unequal legs / radial sizes
     out.append(mk("lsn", True, opt=dict(ny_outer_divertor=7, nx_core=3, nx_sol=4), tags=["sizes"]))
     out.append(mk("udn", True, opt=dict(ny_outer_upper_divertor=5, nx_inter_sep=2), tags=["sizes"]))
+    # unequal inner / outer core halves: cells differ in size across the periodic core join
+    out.append(mk("cdn", True, opt=dict(ny_inner_sol=3, ny_outer_sol=5), tags=["sizes", "asym"]))
+    out.append(mk("cdn", False, opt=dict(ny_inner_sol=3, ny_outer_sol=5), tags=["sizes", "asym"]))
+    # Bp capped at X-point y-faces (psi increasing outwards: the cap only bites for Bp > 0)
+    out.append(mk("lsn", True, sigma=-1.0, opt=dict(cap_Bp_ylow_xpoint=True), tags=["capBp"]))
+    # more than one processor (the same artefact serves C13's differential comparison)
+    out.append(mk("lsn", False, opt=dict(number_of_processors=2), tags=["np"]))
     # profile grid that extends beyond the separatrix; quadratic fpol
     out.append(mk("lsn", True, profile_ext=True, fpol="quad", tags=["profiles"]))
     out.append(mk("ldn", True, profile_ext=True, fpol="quad", tags=["profiles"]))
@@ -135,6 +142,9 @@ def thorough_deviations():
                 m(opt=dict(start_at_upper_outer=True), tags=["upper_outer"])
             if g in ("udn", "ldn", "udn2"):
                 m(opt=dict(nx_inter_sep=2), tags=["sizes"])
+            if g in ("cdn", "udn", "ldn", "udn2"):
+                m(opt=dict(ny_inner_sol=3, ny_outer_sol=5), tags=["sizes", "asym"])
+                m(opt=dict(ny_inner_sol=5, ny_outer_sol=3, ny_inner_lower_divertor=5, ny_outer_upper_divertor=4), tags=["sizes", "asym"])
         out.append(mk(g, True, opt=dict(psi_interpolation_method="dct"), nR=33, nZ=41, tags=["dct"]))
     out.append(mk("lsn", False, opt=dict(psi_interpolation_method="dct"), nR=33, nZ=41, tags=["dct"]))
     out.append(mk("lsn", False, opt=dict(number_of_processors=2), tags=["np"]))
